@@ -265,10 +265,10 @@ func twoClustersIsolation(r *vkit.R) {
 				}}
 			}
 			apply = func(c int, max int32) bool {
-				sr := gw.Apply(obj(c, max))
+				sr := gw.Apply(stamps.stamp(obj(c, max)))
 				return sr.Err == nil && sr.Panic == nil && !sr.Requeue
 			}
-			del = func(c int) { gw.Delete(names[c]) }
+			del = func(c int) { stamps.forget(names[c]); gw.Delete(names[c]) }
 			defer del(0)
 			defer del(1)
 		} else {
@@ -362,5 +362,104 @@ func twoClustersIsolation(r *vkit.R) {
 		r.Eval(1)
 		r.Count("two_clusters_cases", 1)
 		r.Distinct(vkit.Hash64("twoclusters", fmt.Sprintf("%+v", k)))
+	})
+}
+
+// sameUserDifferentGroupsIsolation: dispatch rules also select by user GROUPS. The same user name arrives with different
+// group sets that route the same kind of request to different schemas (or to a policy without schema). Through
+// ClusterInfo.MatchAttributes, one goroutine, exact counts; the order in which the group sets are first seen is varied.
+func sameUserDifferentGroupsIsolation(r *vkit.R) {
+	type kase struct {
+		ma, mb     int32
+		firstGroup int // which identity sends the very first request
+		sameUser   bool
+	}
+	var list []kase
+	for _, ms := range [][2]int32{{1, 3}, {3, 1}, {2, 2}} {
+		for fg := 0; fg < 3; fg++ {
+			for _, su := range []bool{true, false} {
+				list = append(list, kase{ma: ms[0], mb: ms[1], firstGroup: fg, sameUser: su})
+			}
+		}
+	}
+	r.Parallel(len(list), 6, func(i int, _ *vkit.Rand) {
+		k := list[i]
+		name := fmt.Sprintf("c05groups%d", i)
+		ci := clusters.NewEmptyClusterInfo(name, nil, nil, "", nil)
+		uc := &proxyv1alpha1.UpstreamCluster{ObjectMeta: metav1.ObjectMeta{Name: name}}
+		rule := func(groups ...string) []proxyv1alpha1.DispatchPolicyRule {
+			return []proxyv1alpha1.DispatchPolicyRule{{Verbs: []string{"*"}, APIGroups: []string{"*"}, Resources: []string{"*"}, UserGroups: groups}}
+		}
+		uc.Spec.DispatchPolicies = []proxyv1alpha1.DispatchPolicy{
+			{FlowControlSchemaName: hot, Rules: rule("batch")},
+			{FlowControlSchemaName: side, Rules: rule("interactive")},
+			{Rules: rule("*")}, // everybody else: no schema
+		}
+		uc.Spec.FlowControl.Schemas = []proxyv1alpha1.FlowControlSchema{mifSchema(hot, k.ma), mifSchema(side, k.mb)}
+		if err := ci.Sync(uc); err != nil {
+			r.Inconclusive("ClusterInfo.Sync failed: " + err.Error())
+			return
+		}
+		defer func() {
+			o := uc.DeepCopy()
+			o.Spec.FlowControl = proxyv1alpha1.FlowControl{}
+			_ = ci.Sync(o)
+			ci.Stop()
+		}()
+		ids := []*user.DefaultInfo{{Name: "carol", Groups: []string{"batch"}}, {Name: "carol", Groups: []string{"interactive", "system:authenticated"}}, {Name: "carol", Groups: []string{"system:authenticated"}}}
+		if !k.sameUser {
+			ids[1].Name, ids[2].Name = "dave", "erin"
+		}
+		h := &limHandle{via: "ClusterInfo.MatchAttributes.FlowControl", get: func(who string) flowcontrol.FlowControl {
+			u := ids[int(who[0]-'0')]
+			p, err := ci.MatchAttributes(&authorizer.AttributesRecord{User: u, Verb: "list", Resource: "pods", Namespace: "default", ResourceRequest: true})
+			if err != nil {
+				panic("harness: no policy matches")
+			}
+			return p.FlowControl()
+		}}
+		var trace []string
+		lim := []int{int(k.ma), int(k.mb), 10}
+		what := []string{"group batch -> " + hot, "group interactive -> " + side, "no such group -> no schema"}
+		take := func(id int, ctx string) []flowcontrol.FlowControl {
+			n := lim[id]
+			if id == 2 {
+				n = 9 // 10 requests, all admitted
+			}
+			held := takeAll(h, fmt.Sprint(id), n)
+			trace = append(trace, fmt.Sprintf("%s: %d sequential acquires as %s%v (%s) succeeded", ctx, len(held), ids[id].Name, ids[id].Groups, what[id]))
+			r.Count("same_user_groups_exact_probes", 1)
+			w := map[string]interface{}{"limits": map[string]int32{hot: k.ma, side: k.mb}, "same_user_name": k.sameUser, "trace": append([]string(nil), trace...)}
+			cls := "different-user-names"
+			if k.sameUser {
+				cls = "same-user-name"
+			}
+			switch {
+			case len(held) < lim[id]:
+				r.Violation("C05/isolation/policies-by-user-group/"+cls+"/refused",
+					fmt.Sprintf("requests of %s%v are routed to %s (limit %d) and nothing of it is in flight, but only %d were admitted (%s)", ids[id].Name, ids[id].Groups, what[id], lim[id], len(held), ctx), w)
+			case id != 2 && len(held) > lim[id]:
+				r.Violation("C05/isolation/policies-by-user-group/"+cls+"/over-admitted",
+					fmt.Sprintf("requests of %s%v are routed to %s (limit %d) but %d were admitted (%s)", ids[id].Name, ids[id].Groups, what[id], lim[id], len(held), ctx), w)
+			}
+			return held
+		}
+		order := []int{k.firstGroup, (k.firstGroup + 1) % 3, (k.firstGroup + 2) % 3}
+		var held [3][]flowcontrol.FlowControl
+		for n, id := range order {
+			held[id] = take(id, fmt.Sprintf("step %d, earlier identities still in flight", n+1))
+		}
+		// the first identity's requests finish; it gets exactly its own slots again while the others are still exhausted
+		releaseAllFC(held[order[0]])
+		held[order[0]] = take(order[0], "again, others exhausted")
+		for id := range held {
+			releaseAllFC(held[id])
+		}
+		r.Eval(1)
+		r.Count("same_user_groups_cases", 1)
+		if k.sameUser {
+			r.Count("same_user_groups_cases_same_name", 1)
+		}
+		r.Distinct(vkit.Hash64("groups", fmt.Sprintf("%+v", k)))
 	})
 }
